@@ -215,6 +215,15 @@ class Built:
         r = beh.get('r', 'C')
         if isinstance(r, list):
           r = r[min(inv, len(r) - 1)]
+        if beh.get('slow'):
+          # cooperative (killable) delay in real time
+          t_end = time.monotonic() + beh['slow']
+          while time.monotonic() < t_end:
+            time.sleep(0.0005)
+        if r == 'H':
+          log.add('hang', pid, inv)
+          while True:
+            time.sleep(0.0005)
         if r == 'T':
           log.add('hang', pid, inv)
           while True:
@@ -228,6 +237,9 @@ class Built:
         return {'C': None, 'CC': PR.CONTINUE, 'F': PR.FAIL_AND_CONTINUE,
                 'K': PR.SKIP, 'S': PR.STOP, 'U': PR.FAIL_SUBTEST,
                 'R': PR.REPEAT}[r]
+      except BaseException as e:
+        log.add('raised', pid, inv, type(e).__name__)
+        raise
       finally:
         log.add('end', pid, inv)
 
